@@ -107,7 +107,10 @@ pub fn decode(bytes: &[u8]) -> Case {
     });
     excluded += before - argv.len();
     let _ = sanitize_argv;
-    let argv0: Vec<u8> = match u.below(8) {
+    let argv0: Vec<u8> = match u.below(11) {
+        8 => b"/opt/tools/prog-1.2".to_vec(),
+        9 => b"app.bin".to_vec(),
+        10 => b".hidden.x86_64.AppImage".to_vec(),
         0 => b"/usr/local/bin/my app".to_vec(),
         1 => b"./rel/\xffbad".to_vec(),
         2 => b"".to_vec(),
